@@ -196,6 +196,10 @@ func (ip *interp) conv(v interface{}, t reflect.Type) reflect.Value {
 			r.Index(i).SetUint(uint64(b[i]))
 		}
 		return r
+	case reflect.Struct:
+		if t == reflect.TypeOf(util.Buffer{}) {
+			return reflect.ValueOf(util.NewBuffer(toBytes(v))).Elem()
+		}
 	case reflect.Ptr:
 		inner := ip.conv(v, t.Elem())
 		p := reflect.New(t.Elem())
